@@ -1,19 +1,54 @@
 /-!
 Model of `phylib/utils/event.py` (property C19): `EventEmitter` (connect / unconnect / reset /
 silent / set_silent / emit) and `ProgressReporter` (value updates, maximum, completion flag).
-Core Lean only.  Events, senders, callbacks are natural-number tokens.
+Core Lean only.  Senders, callbacks, argument values are natural-number tokens; event names and
+function names are strings (the event name of a `connect` without `event=` is derived from the
+function name, event.py:57-65).
 -/
 namespace PhyVerif.C19
 
-/-- one entry of `self._callbacks`: (event, sender filter, callback identity, owner object of a
-bound-method callback (`f.__self__`), `last=True` flag) -/
+/-- one entry of `self._callbacks` (event.py:106): (event, sender filter, callback identity, owner
+object of a bound-method callback (`f.__self__`), `last=True` flag taken from `**kwargs`) -/
 structure Cb where
-  event : Nat
+  event : String
   sender : Option Nat
   id : Nat
   owner : Option Nat
   last : Bool
 deriving Repr, DecidableEq
+
+/-- the arguments of one `connect(func, event=None, sender=None, **kwargs)` call (event.py:76):
+`fname` is `func.__name__`, `event` the optional `event=` argument -/
+structure ConnReq where
+  fname : String
+  event : Option String
+  sender : Option Nat
+  id : Nat
+  owner : Option Nat
+  last : Bool
+deriving Repr, DecidableEq
+
+/-- `_get_on_name` (event.py:57-65): `re.match("^on_(.+)$", func.__name__)`; `none` stands for the
+`ValueError` it raises.  `.` does not match a newline and `$` also matches just before one final
+newline, which is what the `takeWhile`/`dropWhile` pair says. -/
+def getOnName (fname : String) : Option String :=
+  match fname.toList with
+  | 'o' :: 'n' :: '_' :: body =>
+    let x := body.takeWhile (· != '\n')
+    let r := body.dropWhile (· != '\n')
+    if x.isEmpty then none
+    else if r.isEmpty || r == ['\n'] then some (String.ofList x) else none
+  | _ => none
+
+/-- event.py:101-106: an explicit `event=` wins, otherwise the name is derived from the function;
+`none` = `connect` raises `ValueError` and registers nothing -/
+def connectCb (r : ConnReq) : Option Cb :=
+  match r.event with
+  | some e => some ⟨e, r.sender, r.id, r.owner, r.last⟩
+  | none =>
+    match getOnName r.fname with
+    | some e => some ⟨e, r.sender, r.id, r.owner, r.last⟩
+    | none => none
 
 /-- what `unconnect(*items)` receives: callback functions and/or objects -/
 inductive UItem where
@@ -21,14 +56,17 @@ inductive UItem where
   | obj (o : Nat)
 deriving Repr, DecidableEq
 
+/-- keyword arguments of an emit: a dictionary (distinct keys) of value tokens; token 0 is falsy -/
+abbrev Kwargs := List (String × Nat)
+
 inductive EOp where
-  | connect (c : Cb)
+  | connect (r : ConnReq)
   | unconnect (items : List UItem)
   | reset
   | setSilent (b : Bool)
   | enterSilent                 -- `with emitter.silent():` entered
   | exitSilent                  -- … and left
-  | emit (event sender : Nat) (single : Bool)
+  | emit (event : String) (sender : Nat) (args : List Nat) (kwargs : Kwargs)
 deriving Repr
 
 /-- `saved`: the values held by the frames of the currently open `silent()` context managers
@@ -41,15 +79,24 @@ deriving Repr
 
 def EState.init : EState := ⟨[], false, []⟩
 
-/-- result of one emit: callbacks called in order (ids) and the returned value -/
-inductive Ret where
-  | none                        -- silenced: returns None
-  | list (l : List Nat)         -- list of results in call order
-  | one (r : Nat)               -- `single`: the first result
+/-- what one callback invocation `f(sender, *args, **kwargs)` received (event.py:141) -/
+structure Call where
+  id : Nat
+  sender : Nat
+  args : List Nat
+  kwargs : Kwargs
 deriving Repr, DecidableEq
 
+/-- the value `emit` returns -/
+inductive Ret where
+  | none                        -- silenced: returns None
+  | list (l : List Nat)         -- `res`: list of results in call order
+  | one (r : Nat)               -- `single`: `res[-1]` right after the first call
+deriving Repr, DecidableEq
+
+/-- result of one emit: the invocations in order and the returned value -/
 structure EOut where
-  calls : List Nat
+  calls : List Call
   ret : Ret
 deriving Repr, DecidableEq
 
@@ -59,23 +106,43 @@ def keeps (items : List UItem) (c : Cb) : Bool :=
   (match c.sender with | none => true | some s => !(items.contains (.obj s))) &&
   (match c.owner with | none => true | some o => !(items.contains (.obj o)))
 
-/-- the loop of `emit` over `callbacks` (non-`last` first, then `last`) -/
-def emitLoop (event sender : Nat) (single : Bool) : List Cb → List Nat → EOut
-  | [], res => ⟨res, .list res⟩
-  | c :: cs, res =>
-    if c.event == event && (match c.sender with | none => true | some s => s == sender) then
-      if single then ⟨res ++ [c.id], .one c.id⟩
-      else emitLoop event sender single cs (res ++ [c.id])
-    else emitLoop event sender single cs res
+/-- `single = kwargs.pop('single', None)` (event.py:130): the truth value of the popped entry and
+the dictionary that is forwarded to the callbacks -/
+def popSingle (kw : Kwargs) : Bool × Kwargs :=
+  ((match kw.lookup "single" with | some v => v != 0 | none => false),
+   kw.filter (fun p => p.1 != "single"))
 
-def emit (st : EState) (event sender : Nat) (single : Bool) : EOut :=
+/-- the loop of `emit` over `callbacks` (event.py:136-143).  `calls` records what each callback
+received, `res` is the code's result list (`res.append(f(sender, *args, **kwargs))`); the value a
+callback returns is `result` of what it received.  With `single` the loop returns `res[-1]`, i.e.
+the element just appended. -/
+def emitLoop (result : Call → Nat) (event : String) (sender : Nat) (args : List Nat) (kw : Kwargs)
+    (single : Bool) : List Cb → List Call → List Nat → EOut
+  | [], calls, res => ⟨calls, .list res⟩
+  | c :: cs, calls, res =>
+    if c.event == event && (match c.sender with | none => true | some s => s == sender) then
+      let call : Call := ⟨c.id, sender, args, kw⟩
+      if single then ⟨calls ++ [call], .one (result call)⟩
+      else emitLoop result event sender args kw single cs (calls ++ [call]) (res ++ [result call])
+    else emitLoop result event sender args kw single cs calls res
+
+/-- `emit(event, sender, *args, **kwargs)` (event.py:115-144) -/
+def emit (result : Call → Nat) (st : EState) (event : String) (sender : Nat) (args : List Nat)
+    (kwargs : Kwargs) : EOut :=
   if st.silent then ⟨[], .none⟩
   else
+    let sk := popSingle kwargs
     let callbacks := st.cbs.filter (fun c => !c.last) ++ st.cbs.filter (fun c => c.last)
-    emitLoop event sender single callbacks []
+    emitLoop result event sender args sk.2 sk.1 callbacks [] []
 
-def estep (st : EState) : EOp → EState × Option EOut
-  | .connect c => ({ st with cbs := st.cbs ++ [c] }, none)
+/-- one operation.  `set_silent` and `silent()` act on the same flag whatever the nesting:
+`silent()` saves the flag in its frame and restores it on exit (event.py:67-74), `set_silent`
+overwrites the flag (event.py:49-51), also inside a context. -/
+def estep (result : Call → Nat) (st : EState) : EOp → EState × Option EOut
+  | .connect r =>
+    match connectCb r with
+    | some c => ({ st with cbs := st.cbs ++ [c] }, none)
+    | none => (st, none)               -- ValueError: nothing registered
   | .unconnect items => ({ st with cbs := st.cbs.filter (keeps items) }, none)
   | .reset => ({ st with cbs := [] }, none)
   | .setSilent b => ({ st with silent := b }, none)
@@ -84,20 +151,19 @@ def estep (st : EState) : EOp → EState × Option EOut
     match st.saved with
     | [] => (st, none)
     | b :: rest => ({ st with silent := b, saved := rest }, none)
-  | .emit e s single => (st, some (emit st e s single))
+  | .emit e s a kw => (st, some (emit result st e s a kw))
 
 /-- run a history, collecting the outcome of every emit -/
-def erun : EState → List EOp → List EOut
+def erun (result : Call → Nat) : EState → List EOp → List EOut
   | _, [] => []
   | st, op :: ops =>
-    let (st', out) := estep st op
-    match out with
-    | some o => o :: erun st' ops
-    | none => erun st' ops
+    match estep result st op with
+    | (st', some o) => o :: erun result st' ops
+    | (st', none) => erun result st' ops
 
-def erunState : EState → List EOp → EState
+def erunState (result : Call → Nat) : EState → List EOp → EState
   | st, [] => st
-  | st, op :: ops => erunState (estep st op).1 ops
+  | st, op :: ops => erunState result (estep result st op).1 ops
 
 /-! ### ProgressReporter -/
 
